@@ -96,6 +96,8 @@ def run_prop(prop, tier='quick', seed=0, extra_obs=None, functions=None, extra_a
     locked = set(lock.get('proved', []))
     # ---- proved layer
     ms = msweep.sweep(tier)
+    if not ms.get('canary_ok', False):
+        R.checker_errors.append('canary failed: the engine did not refute a deliberately false contract (or found no exception path)')
     hs = histcheck.sweep(tier)
     kh_all = json.load(open(os.path.join(VERIF, 'known_histories.json'))) if os.path.exists(os.path.join(VERIF, 'known_histories.json')) else {}
     kh = kh_all.get(prop, {})
